@@ -45,6 +45,8 @@ def q__Curve__contains_point(self, x, y):
     if x is None and y is None:
         return True
     assert x is not None and y is not None
+    if not (0 <= x < self._p and 0 <= y < self._p):
+        return False
     return (y * y - (x * x * x + self._a * x + self._b)) % self._p == 0
 
 
